@@ -33,12 +33,19 @@ type c19Sols struct {
 
 func c19Solve(S, C Paths, fr clipper.FillRule) c19Sols {
 	var r c19Sols
+	drv.Alive()
 	r.U = clipper.BooleanOpPaths64(clipper.Union, S, C, fr)
+	drv.Alive()
 	r.I = clipper.BooleanOpPaths64(clipper.Intersection, S, C, fr)
+	drv.Alive()
 	r.D1 = clipper.BooleanOpPaths64(clipper.Difference, S, C, fr)
+	drv.Alive()
 	r.D2 = clipper.BooleanOpPaths64(clipper.Difference, C, S, fr)
+	drv.Alive()
 	r.X = clipper.BooleanOpPaths64(clipper.Xor, S, C, fr)
+	drv.Alive()
 	r.US = clipper.BooleanOpPaths64(clipper.Union, S, nil, fr)
+	drv.Alive()
 	r.UC = clipper.BooleanOpPaths64(clipper.Union, C, nil, fr)
 	return r
 }
